@@ -6,6 +6,7 @@ import (
 	"fmt"
 	"os"
 	"path/filepath"
+	"regexp"
 
 	"verifharness/rng"
 )
@@ -106,17 +107,29 @@ func fwdHasCont(fs []Frame) bool {
 }
 
 // Main is the body of cmd/c09 and cmd/c10.
-func Main(propOK, propWhy string) {
+func Main(propWhy string) {
 	seed := flag.Uint64("seed", 1, "PRNG seed")
 	tier := flag.String("tier", "quick", "quick|thorough")
 	out := flag.String("out", "", "output directory")
 	replay := flag.String("replay", "", "replay file (a CaseJSON)")
 	n := flag.Int("n", 0, "number of generated histories (0: tier default)")
+	tables := flag.String("tables", "", "coq/g09/Tables.v generated from the tree under test (shape flags the mirrors follow)")
 	flag.Parse()
+	if *tables != "" {
+		data, err := os.ReadFile(*tables)
+		if err != nil {
+			panic(err)
+		}
+		m := regexp.MustCompile(`Definition table_size_resizes_decoder : bool := (true|false)\.`).FindSubmatch(data)
+		if m == nil {
+			panic("table_size_resizes_decoder not found in " + *tables)
+		}
+		DecoderFollowsSettings = string(m[1]) == "true"
+	}
 	if err := os.MkdirAll(*out, 0o755); err != nil {
 		panic(err)
 	}
-	m := &Meta{OpKinds: map[string]int{}, Status: map[string]int{}, Streams: map[string]int{}, ShardSize: 25}
+	m := &Meta{OpKinds: map[string]int{}, Status: map[string]int{}, Streams: map[string]int{}, ShardSize: 8}
 	var descr []CaseJSON
 	var cases []*Case
 	add := func(name string, ops []Op, flush bool) {
@@ -166,7 +179,7 @@ func Main(propOK, propWhy string) {
 		if hi > len(cases) {
 			hi = len(cases)
 		}
-		name, err := WriteShard(*out, i, propOK, propWhy, cases[i*m.ShardSize:hi])
+		name, err := WriteShard(*out, i, propWhy, cases[i*m.ShardSize:hi])
 		if err != nil {
 			panic(err)
 		}
